@@ -122,12 +122,16 @@ theorem usesE_rn (hν : Adm ν) (bs : List Name) : ∀ e : Expr,
     rw [rnStack_cons] at this
     simp only [rnE, usesE, usesE_rn hν bs coll, this, List.map_append]
   | .call f args => by simp only [rnE, usesE, usesE_rn hν bs f, usesEs_rn hν bs args, List.map_append]
+  | .pipe l f args => by
+    simp only [rnE, usesE, usesE_rn hν bs l, usesE_rn hν bs f, usesEs_rn hν bs args, List.map_append]
   | .builtin _ args => by simp only [rnE, usesE, usesEs_rn hν bs args]
   | .arrLit _ args _ => by simp only [rnE, usesE, usesEs_rn hν bs args]
   | .arrNew args _ => by simp only [rnE, usesE, usesEs_rn hν bs args]
   | .record _ args => by simp only [rnE, usesE, usesEs_rn hν bs args]
   | .tuple args => by simp only [rnE, usesE, usesEs_rn hν bs args]
   | .enumRec _ _ args => by simp only [rnE, usesE, usesEs_rn hν bs args]
+  | .range args => by simp only [rnE, usesE, usesEs_rn hν bs args]
+  | .slice a idx => by simp only [rnE, usesE, usesE_rn hν bs a, usesEs_rn hν bs idx, List.map_append]
   | .lam (.mk id n ps r body cs) => by
     by_cases hn : n = ""
     · have := usesF_rn hν bs "" (.mk id n ps r body cs)
